@@ -645,3 +645,18 @@ func rootKindCases(prefix string) []cases.ScanCase {
 	mk("as-arguments", rootsArgs, []string{"{hex:b2}", "{hex:t2}", "{hex:g1}", "{hex:b2}"}, "full")
 	return out
 }
+
+// peelQuirkCase: the biggest blob is a file whose name ends in '}' below a tree that is named by a ROOT peel
+// expression (<commit>^{tree}): the description git-sizer prints is read by git as the root itself (KF-D10).
+func peelQuirkCase(prefix string) cases.ScanCase {
+	var g model.Graph
+	names := map[int][]byte{1: []byte("plain.txt"), 2: []byte("@{at}")}
+	g.Blobs = []int{5, 400}
+	g.Trees = [][]model.Entry{{{K: "file", To: 2, N: 2, NL: 5}, {K: "file", To: 1, N: 1, NL: 9}}}
+	g.Commits = []model.Commit{{Tree: 1, Parents: []int{}}}
+	g.Normalize()
+	e := "{hex:c1}^{tree}"
+	return cases.ScanCase{ID: prefix + "-peelquirk", G: g, Names: names, Style: "full", Family: "peelquirk", Args: []string{e},
+		Roots: []cases.RootSpec{{O: model.Oid{K: "c", I: 1}, Walk: false, IsRef: true, Name: "refs/heads/main", Kind: "plain"},
+			{O: model.Oid{K: "t", I: 1}, Walk: true, IsRef: false, Name: e, Kind: rootKindOf(e)}}}
+}
